@@ -22,16 +22,25 @@ fn isaac_core_image(g: &dyn Gen, is64: bool) -> Option<Vec<u8>> {
 
 /// Does `g` equal the generator the documented route builds from `bytes` (one seed's worth)?
 fn equals_from_bytes(ty: &dyn GenType, g: &dyn Gen, bytes: &[u8]) -> bool {
-    let info = ty.info();
-    match info.family {
+    match fam(ty) {
         Family::Isaac => isaac_core_image(g, false) == Some(Isaac::from_full_bytes(bytes).core_image()),
         Family::Isaac64 => isaac_core_image(g, true) == Some(Isaac64::from_full_bytes(bytes).core_image()),
         _ => g.eq_dyn(ty.from_seed(bytes).as_ref()) == Some(true),
     }
 }
 
+/// the family whose documented seeding rules apply (a bare block core follows its generator's)
+fn fam(ty: &dyn GenType) -> Family {
+    match ty.info().name {
+        "IsaacCore" => Family::Isaac,
+        "Isaac64Core" => Family::Isaac64,
+        "Hc128Core" => Family::Hc128,
+        _ => ty.info().family,
+    }
+}
+
 fn source_len(ty: &dyn GenType) -> usize {
-    match ty.info().family {
+    match fam(ty) {
         Family::Isaac => 1024,
         Family::Isaac64 => 2048,
         _ => ty.info().seed_len,
@@ -40,7 +49,9 @@ fn source_len(ty: &dyn GenType) -> usize {
 
 pub fn run(reg: &dyn Registry, ctx: &Ctx) -> Outcome {
     let thorough = ctx.tier == Tier::Thorough;
-    let types = reg.types();
+    let mut types = reg.types();
+    // the block cores are public seedable types of their own (used with rand_core's BlockRng)
+    types.extend(reg.core_types());
     ctx.assume("documented expansions: SplitMix64 stream (xoshiro family), rand_core 0.9 PCG32 expansion (XorShiftRng, Hc128Rng), key words + one init pass (ISAAC); ISAAC generators are compared by the serde image of their freshly built core, before any block is generated");
     let _: Vec<()> = types
         .par_iter()
@@ -48,11 +59,12 @@ pub fn run(reg: &dyn Registry, ctx: &Ctx) -> Outcome {
             let info = ty.info();
             let key = |k: &str| format!("C09:{}:{}", info.name, k);
             let rep = |ctor: serde_json::Value| json!({"kind":"ctor","type":info.name,"ctor":ctor});
-            let is_isaac = matches!(info.family, Family::Isaac | Family::Isaac64);
+            let family = fam(*ty);
+            let is_isaac = matches!(family, Family::Isaac | Family::Isaac64);
 
             // (a) seed_from_u64(x) == from_seed(documented expansion of x)
             let mut xs = alphabet::u64_alphabet();
-            xs.extend(0..if thorough { 65536 } else { 4096 });
+            xs.extend(0..if thorough { 1 << 18 } else { 65536 });
             let dense = alphabet::bg_bytes(ctx.seed, 0x0901, 8 * if thorough { 20000 } else { 2000 });
             xs.extend(dense.chunks(8).map(|c| u64::from_le_bytes(c.try_into().unwrap())));
             for x in xs {
@@ -64,7 +76,7 @@ pub fn run(reg: &dyn Registry, ctx: &Ctx) -> Outcome {
                         continue;
                     }
                 };
-                let ok = match info.family {
+                let ok = match family {
                     Family::Isaac => isaac_core_image(g.as_ref(), false) == Some(Isaac::from_u64(x).core_image()),
                     Family::Isaac64 => isaac_core_image(g.as_ref(), true) == Some(Isaac64::from_u64(x).core_image()),
                     _ => g.eq_dyn(ty.from_seed(&expansion(*ty, x)).as_ref()) == Some(true),
@@ -76,7 +88,7 @@ pub fn run(reg: &dyn Registry, ctx: &Ctx) -> Outcome {
 
             // complete sub-cubes of the u64 argument (types with ==)
             if info.has_eq {
-                let bitsn: u32 = if info.family == Family::Hc128 { if thorough { 22 } else { 16 } } else if thorough { 30 } else { 22 };
+                let bitsn: u32 = if family == Family::Hc128 { if thorough { 22 } else { 16 } } else if thorough { 30 } else { 22 };
                 for (base_tag, shift) in [(0x0911u64, 0u32), (0x0912, 64 - bitsn), (0x0913, 16)] {
                     let mut b = [0u8; 8];
                     b.copy_from_slice(&alphabet::bg_bytes(ctx.seed, base_tag, 8));
@@ -149,7 +161,7 @@ pub fn run(reg: &dyn Registry, ctx: &Ctx) -> Outcome {
             // (b2) leading all-zero blocks: XorShiftRng redraws (and only then), everybody else builds from
             // exactly the one block delivered
             if !is_isaac {
-                for z in alphabet::zero_block_counts(if thorough { 65536 } else { 4096 }).into_iter().filter(|&z| z >= 1) {
+                for z in alphabet::zero_block_counts(if thorough { 1 << 18 } else { 65536 }).into_iter().filter(|&z| z >= 1) {
                     for blk in [alphabet::with_bits(n, &[0]), alphabet::with_bits(n, &[8 * n - 1]), alphabet::bg_bytes(ctx.seed, 0x0905, n)] {
                         let mut script = vec![0u8; z * n];
                         script.extend_from_slice(&blk);
@@ -164,7 +176,7 @@ pub fn run(reg: &dyn Registry, ctx: &Ctx) -> Outcome {
                                 continue;
                             }
                         };
-                        let (want_bytes, want_pos) = if info.family == Family::XorShift { (blk.clone(), (z + 1) * n) } else { (vec![0u8; n], n) };
+                        let (want_bytes, want_pos) = if family == Family::XorShift { (blk.clone(), (z + 1) * n) } else { (vec![0u8; n], n) };
                         if src.pos != want_pos {
                             ctx.violation(&key("from_rng-consumption"), &format!("{}: from_rng over {} leading all-zero blocks left the source advanced by {} bytes instead of {}", info.name, z, src.pos, want_pos), rp.clone());
                         }
@@ -177,13 +189,13 @@ pub fn run(reg: &dyn Registry, ctx: &Ctx) -> Outcome {
 
             // fault enumeration: z leading all-zero blocks, failure at call f in each mode
             let last = alphabet::bg_bytes(ctx.seed, 0x0904, n);
-            let zs: Vec<usize> = if info.family == Family::XorShift { vec![0, 1, 2, 3, 4, 15, 16, 17, 255, 256, 257, 1023, 1024, 1025] } else { vec![0, 1] };
+            let zs: Vec<usize> = if family == Family::XorShift { vec![0, 1, 2, 3, 4, 15, 16, 17, 255, 256, 257, 1023, 1024, 1025] } else { vec![0, 1] };
             for z in zs {
                 let mut script = vec![0u8; z * n];
                 script.extend_from_slice(&last);
                 script.extend_from_slice(&follow);
                 // number of source calls the documented procedure makes
-                let calls_made = if info.family == Family::XorShift { z + 1 } else { 1 };
+                let calls_made = if family == Family::XorShift { z + 1 } else { 1 };
                 let fs: Vec<usize> = if calls_made <= 6 { (0..=calls_made + 1).collect() } else { vec![0, 1, calls_made / 2, calls_made - 2, calls_made - 1, calls_made, calls_made + 1] };
                 for f in fs {
                     for mode in [FaultMode::Untouched, FaultMode::Partial, FaultMode::Full] {
@@ -206,7 +218,7 @@ pub fn run(reg: &dyn Registry, ctx: &Ctx) -> Outcome {
                             ),
                             (Ok(Ok(g)), false) => {
                                 // failure scheduled after the last call the procedure makes: must not matter
-                                let expect_bytes: Vec<u8> = if info.family == Family::XorShift || z == 0 { last.clone() } else { vec![0u8; n] };
+                                let expect_bytes: Vec<u8> = if family == Family::XorShift || z == 0 { last.clone() } else { vec![0u8; n] };
                                 if !equals_from_bytes(*ty, g.as_ref(), &expect_bytes) {
                                     ctx.violation(&key("fault-late-result"), &format!("{}: try_from_rng with a failure scheduled at unused call {} built a different generator", info.name, f), rp);
                                 }
